@@ -44,13 +44,14 @@ const c07MaxWidth = 33
 func init() {
 	kit.Register(&kit.Spec{
 		ID:     "C07",
-		Rule:   "per shard one node; for every width w=1..33 an honest block (coinbase + w-1 signed TransferAsset v0/v9 with 1..3 outputs) on the tip; family I mutations x every width they apply to, positions chosen per seed (drop/duplicate: all positions in the thorough tier, edge positions + a per-shard quarter of the inner ones in the quick tier; seeded pairs for swaps, seeded offsets for byte flips, every editable field kind); family II re-sealed/re-solved lists; III ProcessBlock on one seeded width per shard. distinct = (width, mutation kind, positions/offset); non-trivial = the mutant deserialized into a block with at least one transaction and reached CheckBlockSanity (byte flips that no longer deserialize are counted separately and are trivial)",
+		Rule:   "per shard one node; for every width w=1..33 an honest block (coinbase + w-1 signed TransferAsset v0/v9 with 1..3 outputs) on the tip; family I mutations x every width they apply to, positions chosen per seed (drop/duplicate: all positions in the thorough tier, edge positions + a per-shard quarter of the inner ones in the quick tier; seeded pairs for swaps, seeded offsets for byte flips, every editable field kind); family II re-sealed/re-solved lists; III ProcessBlock on one seeded width per shard; IV concurrent rounds: 6 goroutines call Chain.CheckBlockSanity, BlockPool.AppendDposBlock and Chain.ProcessBlock on the one BlockChain with (honest block, forged body under its header, body under another header) pairs of 2..400 txs, each goroutine on its own deserialized objects, verdict per call compared with the sequential reference verdict. distinct = (width, mutation kind, positions/offset); non-trivial = the mutant deserialized into a block with at least one transaction and reached CheckBlockSanity (byte flips that no longer deserialize are counted separately and are trivial)",
 		Shards: func(tier string) int { return 8 },
 		Run:    runC07,
 		Require: []string{"honest_sanity_accepted", "honest_process_accepted", "mut:flip-hashed-byte", "mut:edit-field", "mut:drop", "mut:swap", "mut:dup-adjacent", "mut:dup-append",
 			"mut:dup-tail-root-preserving", "dup_tail_root_equal_confirmed", "mut:coinbase-moved", "mut:coinbase-duplicated", "mut:second-coinbase-appended", "mut:second-coinbase-substituted",
 			"mut:foreign-substituted", "mut:foreign-appended", "honest_sanity_accepted_with_inputless_tx", "mut:nocost/dup-adjacent", "mut:nocost/dup-tail-root-preserving", "reseal:nocost/dup", "mut:flip-witness-byte", "reseal:accept-expected", "reseal:reject-expected", "reseal:root-of-other-list",
-			"process_mutants_rejected", "mutants_rejected_by_sanity", "max:widths_reached"},
+			"process_mutants_rejected", "mutants_rejected_by_sanity", "max:widths_reached",
+			"concurrent_sanity_calls", "concurrent_rounds_with_overlap", "forged_rejected_concurrently", "honest_accepted_concurrently", "conc_calls:forged:blockpool", "conc_calls:forged:processblock", "conc_calls:forged:direct"},
 		Assumptions: []string{"sha256 from the Go standard library; the reference merkle tree of props/c39_model.go",
 			"a byte flip inside the signature programs (witness) does not change the transaction id, so CheckBlockSanity is not required to notice it; such blocks must be rejected by ProcessBlock (signature check), which is what part III observes",
 			"regnet parameters (instant blocks), header timestamp = parent + 1"},
@@ -612,6 +613,9 @@ func runC07(c *kit.Ctx) {
 	for _, k := range kinds {
 		c.Max("max:widths:"+k, int64(len(widthsReached[k])))
 	}
+
+	// ================= IV: concurrent checks on the one BlockChain (props/c07_conc.go) =================
+	c07Concurrent(c, nd, c.Rand("c07-conc"), lists, hdrs, foreign)
 
 	// ================= III: through ProcessBlock =================
 	wStar := 2 + int((uint64(c.Seed)*7+uint64(c.Shard)*5)%uint64(c07MaxWidth-1)) // 2..33
